@@ -32,11 +32,15 @@ impl Metadata {
 }
 // the state of the file system at the time of the call
 pub uninterp spec fn fs_metadata(name: Seq<char>) -> Option<Metadata>;
+pub uninterp spec fn fs_symlink_metadata(name: Seq<char>) -> Option<Metadata>;
 pub uninterp spec fn s_can_read(p: Permissions) -> bool;
 pub mod std { pub mod fs {
     use super::super::*;
     #[verifier::external_body] pub fn metadata(p: &Path) -> (r: Result<Metadata, ()>)
         ensures r.is_ok() == fs_metadata(p.s_name()).is_some(), r.is_ok() ==> r.unwrap() == fs_metadata(p.s_name()).unwrap() { unimplemented!() }
+    // lstat: the link itself, not what it points to -- a different function of the file system state
+    #[verifier::external_body] pub fn symlink_metadata(p: &Path) -> (r: Result<Metadata, ()>)
+        ensures r.is_ok() == fs_symlink_metadata(p.s_name()).is_some(), r.is_ok() ==> r.unwrap() == fs_symlink_metadata(p.s_name()).unwrap() { unimplemented!() }
 } }
 // nested fn can_read(perms) of Bindings::generate (mode & 0o444 > 0 on unix)
 #[verifier::external_body] pub fn can_read(p: &Permissions) -> (r: bool) ensures r == s_can_read(*p) { unimplemented!() }
